@@ -1,10 +1,10 @@
-// unit int_memsize_moddiv (NOT REGISTERED until proposed_fixes/MEM2 is in /repo: its stub of gcd::memory_requirement_ext_exact
-// states what unit int_memsize_gcd_ext_ops proves on the REPAIRED tree): integer/src/modular/div.rs inv_large under its
-// FUNCTIONAL + RESOURCE contract (C13 / C16): the proof of int_moddiv over the capacity-tracking Memory, plus: the scratch
-// allocated from gcd::memory_requirement_ext_exact(|modulus|, raw_len) is what gcd::gcd_ext_in_place needs, so the modular inverse
-// never panics with "internal error: not enough memory allocated".
-// Trusted: as int_moddiv (lib/mem_mod2_gcd.rs = lib/mod2_gcd.rs + resource clauses proved in int_memsize_gcd_ext /
-// int_memsize_gcd_ext_ops; lib/mem_mod2_mem.rs = lib/mod2_mem.rs without its opaque Memory) + lib/mem_model.rs.
+// unit int_memsize_moddiv: integer/src/modular/div.rs inv_large under its FUNCTIONAL + RESOURCE contract (C13 / C16): the proof
+// of int_moddiv over the capacity-tracking Memory, plus: the scratch allocated from gcd::memory_requirement_ext_exact(|modulus|,
+// raw_len) is what gcd::gcd_ext_in_place needs, so the modular inverse never panics with "internal error: not enough memory
+// allocated" (it did before the repair 914fd28: this is the call site where that defect showed).
+// Trusted: as int_moddiv (lib/mem_mod2_gcd.rs = lib/mod2_gcd.rs + RESOURCE clauses on gcd::gcd_ext_in_place /
+// gcd::memory_requirement_ext_exact that are PROVED in int_memsize_gcd_ext / int_memsize_gcd_ext_ops; lib/mem_mod2_mem.rs =
+// lib/mod2_mem.rs without its opaque Memory) + lib/mem_model.rs.
 #![feature(allocator_api)]
 #![allow(unused_imports, unused_variables, dead_code, non_snake_case, unused_mut, unused_parens, unused_braces)]
 use vstd::prelude::*;
